@@ -30,18 +30,18 @@ import (
 const maxRound = 3
 
 type env struct {
-	dir   string
-	s     *csim.Sim
-	T     int
-	n     *csim.Node
-	cs    *pbft.ConsensusState
-	conR  *pbft.ConsensusReactor
-	sw    *p2p.Switch
-	peer  *p2p.Peer
-	ps    *pbft.PeerState
-	pipe  net.Conn
-	sit   string
-	fast  bool
+	dir       string
+	s         *csim.Sim
+	T         int
+	n         *csim.Node
+	cs        *pbft.ConsensusState
+	conR      *pbft.ConsensusReactor
+	sw        *p2p.Switch
+	peer      *p2p.Peer
+	ps        *pbft.PeerState
+	pipe      net.Conn
+	sit       string
+	fast      bool
 	peerErrMu sync.Mutex
 	peerErr   interface{}
 	sentinel  chan struct{}
